@@ -326,7 +326,9 @@ def run_shard(u, shard, nshards, tier, seed, outdir):
             cmd2 = [u.binary, "--tier", tier, "--seed", str(seed), "--shard", str(shard), "--nshards", str(nshards), "--out", out2, "--only", str(n)] + u.args
             again = True
             try:
-                p2 = subprocess.run(cmd2, stdout=subprocess.PIPE, stderr=subprocess.PIPE, env=env, timeout=300)
+                env2 = dict(env)
+                env2["VERIF_CASE_ALARM"] = "1200"   # the binary's own per-case watchdog; the drivers do not have one
+                p2 = subprocess.run(cmd2, stdout=subprocess.PIPE, stderr=subprocess.PIPE, env=env2, timeout=1500)
                 txt = open(out2).read() if os.path.exists(out2) else ""
                 again = ('"t":"crash"' in txt) or p2.returncode != 0
             except subprocess.TimeoutExpired:
